@@ -101,6 +101,11 @@ func (idx *LSHIndex) computeBandKeys(sig *MinHashSignature) []string {
 	if b <= 0 {
 		b = 32
 	}
+	// A band cannot be wider than the signature itself: with rows > len(signature)
+	// no band would be produced and every candidate (even an identical fragment) lost.
+	if total > 0 && r > total {
+		r = total
+	}
 	maxBands := total / r
 	if b > maxBands {
 		b = maxBands
